@@ -56,7 +56,7 @@ def corr : Corr := ⟨dec, enc⟩
 
 /-- the correspondence is one: decoding a program counter and encoding it again gives it back -/
 theorem enc_dec (pc : PC) (nd : Nat) (env : Env) (h : dec pc = some (nd, env)) : enc nd env = some pc := by
-  cases pc <;> simp [dec] at h <;> obtain ⟨rfl, rfl⟩ := h <;> simp [enc, Env.int, Env.chan, Env.set, Env.empty]
+  cases pc <;> simp [dec] at h <;> obtain ⟨rfl, rfl⟩ := h <;> simp [enc, Env.int, Env.chan, Env.set]
 
 /-! ## the obligation -/
 
